@@ -136,6 +136,12 @@ Ops(s) ==
 \cup (IF On("GetLocation")  THEN {[op |-> "GetLocation", b |-> b] : b \in Buckets} ELSE {})
 \cup (IF On("PutObject")    THEN {[op |-> "PutObject", b |-> b, k |-> k, body |-> bd, meta |-> NoMeta, vid |-> NextVid(s)]
                                     : b \in Buckets, k \in WKeySet, bd \in BodySet} ELSE {})
+\* an upload that is refused after its body has been read (Content-MD5 of other bytes; body shorter than declared)
+\cup (IF On("PutRefused")
+        THEN {[op |-> "Upload", target |-> "put", b |-> b, k |-> k, body |-> bd, meta |-> NoMeta, vid |-> "",
+               digest |-> dl[1], length |-> dl[2], keyClass |-> "ok", metaClass |-> "ok", failAt |-> -1]
+                : b \in Buckets, k \in WKeySet, bd \in BodySet \ {<<>>}, dl \in {<<"wrong", "exact">>, <<"none", "shorter">>}}
+        ELSE {})
 \cup (IF On("PutMeta")      THEN {[op |-> "PutObject", b |-> b, k |-> k, body |-> bd, meta |-> MetaA, vid |-> NextVid(s)]
                                     : b \in Buckets, k \in WKeySet, bd \in BodySet} ELSE {})
 \cup (IF On("PutMetaB")     THEN {[op |-> "PutObject", b |-> b, k |-> k, body |-> bd, meta |-> MetaB, vid |-> NextVid(s)]
